@@ -781,6 +781,11 @@ fn run(ctx: &mut Ctx) {
     if ctx.mine(job) {
         crate::props::c09::start_failure_history(ctx, "C08", "+");
     }
+    // (iv-c) 150 directories with 64 file descriptors
+    job += 1;
+    if ctx.mine(job) {
+        crate::props::c09::low_descriptor_exec(ctx, "C08", "+");
+    }
     // (iv'') several starting points, -quit before the last one
     for execdir in [false, true] {
         for roots in [vec!["a", "b", "c"], vec!["b", "a", "c"], vec!["c", "b", "a"], vec!["a"]] {
@@ -847,6 +852,10 @@ fn run(ctx: &mut Ctx) {
 }
 
 fn replay(case: &Value, ctx: &mut Ctx) -> Option<String> {
+    if case["low_descriptor"] == true {
+        crate::props::c09::low_descriptor_exec(ctx, "C08", "+");
+        return ctx.rep.violations.keys().next().cloned();
+    }
     if case["start_failure_history"] == true {
         crate::props::c09::start_failure_history(ctx, "C08", "+");
         return ctx.rep.violations.keys().next().cloned();
